@@ -79,6 +79,27 @@ def run(ck):
 
     for u in eunits:
         emit("fac %s %s" % (u, frac(qunits.conversion_facs_energy[u])), "ok")
+    # "the exact conversion between the two units" is a physical statement: the factors of the code's table are compared with values
+    # written down here from the definitions of the units (CODATA constants of scipy; internal unit: rad/fs, hbar = 1)
+    import scipy.constants as _c
+    _cm = 2.0 * _c.pi * _c.c * 100.0 * 1.0e-15
+    ref_fac = {"int": 1.0, "1/fs": 1.0, "1/cm": _cm, "THz": 2.0 * _c.pi * 1.0e12 * 1.0e-15, "eV": _c.e / _c.hbar * 1.0e-15,
+               "meV": 1.0e-3 * _c.e / _c.hbar * 1.0e-15, "J": 1.0e-15 / _c.hbar, "SI": 1.0e-15 / _c.hbar, "nm": 1.0 / (1.0e7 * _cm),
+               "Ha": _c.physical_constants["Hartree energy"][0] / _c.hbar * 1.0e-15,
+               "a.u.": _c.physical_constants["Hartree energy"][0] / _c.hbar * 1.0e-15}
+    for u in eunits:
+        ck.case(("factor", u), nontrivial=(u not in ("int", "1/fs")), accessor="factor-table")
+        if u not in ref_fac:
+            ck.extra.setdefault("units_without_reference_factor", []).append(u)
+            continue
+        try:
+            got = float(qunits.conversion_facs_energy[u])
+        except Exception as e:
+            ck.fail("factor:%s" % u, "supported energy unit has no conversion factor: %r" % (e,), {"unit": u})
+            continue
+        rel = 1e-6 if u in ("Ha", "a.u.") else 1e-9      # the Hartree value of the code is the CODATA-2014 one
+        if abs(got - ref_fac[u]) > rel * abs(ref_fac[u]):
+            ck.fail("factor:%s" % u, "conversion factor of the energy unit %s differs from the definition of the unit" % u, {"unit": u}, got, ref_fac[u])
 
     # ---- (i) pair x accessor matrix --------------------------------------------------------------
     ta = TimeAxis(0.0, 100, 1.0)
